@@ -42,6 +42,51 @@ def io_havoc(it, env):
     sess.arbitrary_state(fields=["extra_workers"])
 
 
+def listing_havoc(it, env):
+    """as io_havoc; then remember the loop-head state for the per-iteration listing obligation (C07)"""
+    io_havoc(it, env)
+    sess = it.ctx.unit_state.vars["sess"]
+    st = sess.owned_streams[0] if sess.owned_streams else None
+    sess.listing_head = {"ev": len(it.ctx.events), "W0": st.fields["writer"].written if st else None, "stream": st}
+
+
+def listing_ghost(it, env, phase):
+    """C07 (server side of a listing): one iteration of the worker's loop takes exactly one entry from the backend's
+    lister and appends exactly one line to the data stream - the line the formatter returned for that very entry,
+    plus CRLF, encoded - or, for LIST only, nothing when the backend says the entry no longer exists.  By induction
+    over the loop the stream carries one line per listed entry, in listing order, none invented, none repeated."""
+    if phase != "step":
+        return
+    from pyvc import strmodel
+
+    us = it.ctx.unit_state
+    sess, verb = us.vars["sess"], us.vars["verb"]
+    if verb not in ("list", "mlsd"):
+        return
+    ctx = it.ctx
+    head = getattr(sess, "listing_head", None)
+    wname = WORKERS[verb][1].split(".")[-1]
+    T7 = {"props": ["C07"]}
+    if head is None or head["stream"] is None:
+        ctx.check(f"{wname}/iteration:runs-with-the-detached-data-stream", z3.BoolVal(False), info=T7)
+        return
+    ev = ctx.events[head["ev"]:]
+    nexts = [e for e in ev if e[0] == "backend" and e[1] == "list.next"]
+    built = [e for e in ev if e[0] == "built-line"]
+    child = env.lookup("path")
+    ctx.check(f"{wname}/iteration:takes-one-entry-and-formats-that-entry", z3.BoolVal(len(nexts) == 1 and len(built) <= 1 and all(b[1] is child for b in built)), info=T7)
+    w = head["stream"].fields["writer"]
+    if built:
+        line = it.unbox(built[0][2])
+        want = z3.Concat(head["W0"], strmodel.f_encode(z3.Concat(line.t, z3.StringVal("\r\n"))))
+        ctx.check(f"{wname}/iteration:appends-exactly-that-entry's-line-and-CRLF", w.written == want, info=T7)
+    else:
+        ctx.check(f"{wname}/iteration:no-line-no-bytes", w.written == head["W0"], info=T7)
+        gone = [e for e in ev if e[0] == "backend-result" and e[1] == "exists" and e[2] and e[2][0] is child]
+        skip_ok = z3.BoolVal(False) if (verb != "list" or len(gone) != 1) else z3.Not(tt(it.truthy_term(gone[0][3])))
+        ctx.check(f"{wname}/iteration:an-entry-is-skipped-only-when-the-backend-says-it-is-gone", skip_ok, info=T7)
+
+
 def loop_inv_open(S):
     """inside a transfer loop the worker's data stream and file are still open"""
     sess = S.it.ctx.unit_state.vars["sess"]
@@ -108,6 +153,20 @@ def make_worker_setup(verb, meth, mode):
         del it.ctx.vcs[n_before:]
         sess.owned_streams = []
         sess.track_detach = True
+        if verb in ("list", "mlsd"):
+            # C07 ghost: record which line the real formatter returned for which entry (the formatter itself runs inline)
+            fmt = "build_list_string" if verb == "list" else "build_mlsx_string"
+            real_fmt = it.getattr_(sess.server, fmt)
+
+            def recording(i, a, k):
+                def run():
+                    res = i.await_(i.call(real_fmt, a, k))
+                    i.ctx.event("built-line", a[1], res)
+                    return res
+
+                return Coro(run, fmt)
+
+            sess.server.fields[fmt] = Builtin(fmt + " (recorded)", recording)
 
         def run(i, a, k):
             return task.coro
@@ -228,6 +287,9 @@ def define_worker_units():
         c.exit_hook = worker_exit
         c.raises = {"BaseException": []}
         spec = LoopSpec(invariants=[("stream-and-file-still-open", loop_inv_open), ("data-moved-so-far-is-exact", loop_inv_data)], havoc=io_havoc)
+        if verb in ("list", "mlsd"):
+            spec = LoopSpec(invariants=[("stream-and-file-still-open", loop_inv_open)], havoc=listing_havoc, ghost=listing_ghost)
+            c.props = list(c.props) + ["C07"]
         c.loops = {(wq, 0): spec}
         c.assumptions.append("SEQ: while a transfer task runs, the rest of the session changes only data_connection/extra_workers (no pipelined commands)")
 
